@@ -44,7 +44,7 @@ EXTENDS Integers, Sequences, FiniteSets, FiniteSetsExt, TLC, Json, IOUtils
 CONSTANTS
     MaxSteps,     \* 1000 in the implementation
     Loop,         \* "copy" | "alias"
-    Family,       \* "all" | "relax" | "accum" | "looserel" | "slowaccum" | "zerovar" | "grow" | "ssupd"  (which cases Init draws from), or
+    Family,       \* "all" | "relax" | "accum" | "looserel" | "slowaccum" | "forced" | "zerovar" | "grow" | "ssupd"  (which cases Init draws from), or
                   \* "file": cases proposed by the harness in the JSON file IOEnv.CASE_FILE (oracle mode)
     Tier,         \* "quick" | "thorough"  (size of the grid)
     NanRule,      \* "notconverged" | "converged": is an UNDEFINED norm (0/0 under the relative norm, inf - inf
@@ -207,6 +207,8 @@ Cases == CASE Family = "all"      -> RelaxCases \cup AccumCases \cup ScanCases
            [] Family = "accum"    -> AccumCases
            [] Family = "looserel" -> LooseRel
            [] Family = "slowaccum" -> SlowAccum
+           [] Family = "forced"   -> {Case("forced1", "relax", m, 0, <<10>>, <<3>>, <<0>>, td, rel, FALSE) :
+                                        m \in {1, 2}, td \in {128, 1000000}, rel \in BOOLEAN}
            [] Family = "zerovar"  -> ZeroVar
            [] Family = "grow"     -> {c \in Grow1 : c.m >= 2}
            [] Family = "ssupd"    -> SsUpd(Unscaled)
@@ -346,7 +348,11 @@ SuccessIsSteady ==
               ELSE \* (2^m - 1) |dev_i| 2^-(m s + u) < tol
                    DyLess(Abs(cs.dev[i]) * (Pow2(cs.m) - 1) * cs.td, cs.m * P + cs.u, 1, 0)
 
-AccumFails     == cs.kind \in {"lin", "grow"} => status # "ok"
+\* networks WITHOUT a steady state: accumulation, growth, and a pool driven by a periodic influx
+\* a (1 + sin(2 pi t / 100)) ("forced1"): its solution approaches a periodic orbit; SAMPLED once per period (the loop's
+\* step is a multiple of the period) the sequence is  y_per(0) + 2^-(m s) dev  -- it converges, the state does not
+NoSteady(c)    == c.kind \in {"lin", "grow"} \/ c.net = "forced1"
+AccumFails     == NoSteady(cs) => status # "ok"
 \* (a network with an identically-zero variable never gets a defined relative norm: the search may only fail)
 RelaxConverges == (cs.kind = "relax" /\ ~(cs.rel /\ HasZeroVar(cs))) => status # "fail" /\ s <= 40
 UndefinedIsNotConvergence ==
